@@ -276,13 +276,23 @@ ConservationAt(st, h, u, g) ==
 \* C06 (a): the balance of a well-behaved consumer's subscriber never goes negative
 NoOverdraftAt(st, k) == st.acct[k].quota >= 0
 
-\* C06 (b): per answered usage entry.  `pre` is the state before the step.
-GrantAffordable(pre, u, us, info) ==
-  LET k     == Key(u, us.rg)
-      cost  == pre.acct[k].cost
-      r1    == Reserved(pre, u, us.rg) - OnlineVol(us) * cost
-      avail == pre.acct[k].quota + Max(r1, 0)
-  IN (avail \div cost < us.req) => (info.granted <= avail \div cost /\ info.fui)
+\* C06 (b): per answered usage entry.  `pre` is the state before the step, `h` the history before the step.
+\* "The money still available for a rating group (account balance plus unconsumed reservation)" is computed from the
+\* HISTORY -- money ever credited minus the rated price of all usage reported including this entry's -- and not from
+\* the reservation the implementation believes it holds: a CHF that forgets to consume its reservation must not
+\* be judged by its own books.  (With C01 both are equal.)
+Avail(pre, h, u, us) ==
+  LET k == Key(u, us.rg)
+  IN Max(h.credited[k] - pre.acct[k].cost * (h.used[k] + OnlineVol(us)), 0)
+Short(pre, h, u, us) == Avail(pre, h, u, us) \div pre.acct[Key(u, us.rg)].cost < us.req
+GrantWithin(pre, h, u, us, info) ==
+  Short(pre, h, u, us) => info.granted <= Avail(pre, h, u, us) \div pre.acct[Key(u, us.rg)].cost
+GrantFui(pre, h, u, us, info) == Short(pre, h, u, us) => info.fui
+GrantAffordable(pre, h, u, us, info) == GrantWithin(pre, h, u, us, info) /\ GrantFui(pre, h, u, us, info)
+\* the entry is processed by the debit branch: the rating group is in debit mode or the request carries a FINAL trigger
+DebitMode(pre, u, g, trig) ==
+  (\E i \in 1..Len(trig) : trig[i] = "final")
+  \/ (u \in DOMAIN pre.ue /\ g \in DOMAIN pre.ue[u].rg /\ pre.ue[u].rg[g].rtype = "debit")
 
 \* C02: records of one session, in order of `recs`, carry exactly the reported containers
 RECURSIVE ConcatConts(_, _, _)
